@@ -46,6 +46,19 @@ def sweep_plans(base, rng, tier):
                 p["srv"]["uid"] = rng.choice([1001, 1002, 1004, 1007, 0x7fff, 0x8000, 0xfffe, 0xffff, rng.randrange(1001, 65536)])
                 plans.append(p)
                 k += 1
+    # length ladder: the MCS send-data user data of the Client Info PDU crosses every PER length boundary
+    # (0x7f / 0x80 / ...) once per Client Info variant
+    for ext in (False, True):
+        for n in range(0, 72):
+            p = json.loads(json.dumps(base))
+            p["id"] = "ladder-%d-%d" % (ext, n)
+            c = p["cfg"]
+            c.update({"nla": False, "admin": False, "blank": False, "hash": False, "check": False, "domain": [100], "user": [97 + (i % 26) for i in range(n)], "name": [118, 104]})
+            p["srv"]["reply"]["sel"] = [1, 0, 0, 0]
+            p["srv"]["account"] = {"domain": c["domain"], "user": c["user"], "password": c["password"]}
+            p["srv"]["activations"] = 1
+            p["srv"]["blocks"] = {"version": [1 if ext else 4, 0, 8, 0], "core_opt": 2, "with_security": True, "order": ["core", "sec", "net"]}
+            plans.append(p)
     return plans
 
 
